@@ -165,6 +165,9 @@ func main() {
 		if err == nil {
 			err = c12.NonASCII(res)
 		}
+		if err == nil {
+			err = c12.Sequences(res)
+		}
 	case "C01":
 		res.Rule = "25 real signatures (0..5 params, with/without context, four result shapes, raw params, custom (Un)Marshaler, custom encoder/decoder pair) x argument and result values from the property's classes (nil pointers, nil vs empty slices/maps, integer extremes, -0, 1e308, HTML/control/multi-byte strings, byte slices, raw JSON, unserialisable values) x {custom, http, ws} x 5 formatters; plus 12 (thorough 24) goroutines calling concurrently through one client per transport with arguments only they use, the handler echoing what it received; distinct = (method, transport, formatter, values, class); non-trivial = the handler was reached"
 		err = c01.Run(d, res, *seed, n(4000, 60000))
